@@ -167,6 +167,27 @@ pub fn generate(thorough: bool, r: &mut Rng, em: &mut Emit) {
         em.case_nt("c02.header", &[sx::hex(&b)], true);
         em.case_nt("c02.decode_untyped", &[sx::hex(&b)], true);
     }
+    // values that the reader only SKIPS must be well-formed all the same: a function reference whose method name is not UTF-8
+    // (and, as a control, one that is) in a surplus field, under reserved, behind the fall-back of opt, as a surplus argument
+    {
+        let fty = T::Func(vec![], vec![], vec![]);
+        let wire = T::rec(vec![(0, fty.clone()), (1, T::p("nat"))]);
+        for name in [&[0xffu8][..], &[0xc3][..], &[0xed, 0xa0, 0x80][..], &[0xc3, 0xa9][..], &[0x66, 0x80][..], &[][..]] {
+            for pb in [vec![], vec![1u8, 2, 3]] {
+                let v = V::Rec(vec![(0, V::Func(pb.clone(), name.to_vec())), (1, V::Nat(5u32.into()))]);
+                let msg = message(&vec![], &[wire.clone()], &[v.clone()], 0);
+                let h = sx::hex(&msg);
+                em.stat("skipped.func-method-name");
+                em.case_nt("c02.decode_untyped", &[h.clone()], true);
+                for e in [T::rec(vec![(1, T::p("nat"))]), T::rec(vec![(0, T::p("reserved")), (1, T::p("nat"))]), T::rec(vec![(0, T::opt(T::p("nat"))), (1, T::p("nat"))]),
+                          T::rec(vec![(0, T::opt(fty.clone())), (1, T::p("nat"))]), wire.clone(), T::p("reserved"), T::opt(T::p("text"))] {
+                    em.case_nt("c02.decode", &["()".to_string(), tys_sx(&[e]), h.clone()], true);
+                }
+                let msg2 = message(&vec![], &[T::p("nat"), fty.clone()], &[V::Nat(7u32.into()), V::Func(pb.clone(), name.to_vec())], 0);
+                em.case_nt("c02.decode", &["()".to_string(), tys_sx(&[T::p("nat")]), sx::hex(&msg2)], true);
+            }
+        }
+    }
     for round in 0..150 * scale {
         let cfg = GenCfg { max_depth: 2, refs: round % 4 == 0, var_bias: 4 };
         let k = r.range(0, 4) as usize;
